@@ -847,7 +847,8 @@ template <class D> struct ObjHarness : Harness {
       else if (!t1) {
         if ((d.flags & F_ANS) && a1 != a2) ctx.violation("C14", "recovered-behaves-differently", klass(op, "answer"), "answers " + a1 + " vs " + a2);
         for (int s : uniq) {
-          if (!R.pool[(size_t) s]->OK()) ctx.violation("C14", "recovered-behaves-differently", klass(op, "ok"), "OK() false after re-execution");
+          // (an OK() failure that the pristine copy shows too is the operation's own defect, reported by M-ok: not a difference)
+          if (!R.pool[(size_t) s]->OK() && ref[s]->OK()) ctx.violation("C14", "recovered-behaves-differently", klass(op, "ok"), "OK() false after re-execution on the recovered object only");
           else if ((d.flags & F_VAL) && !same_value(*R.pool[(size_t) s], *ref[s])) ctx.violation("C14", "recovered-behaves-differently", klass(op, "value"), "results differ");
         }
       }
